@@ -70,6 +70,13 @@ theorem pair_at_point_net_zero (X1 X2 : Pose K) (h1 : X1.R.IsOrtho) (h2 : X2.R.I
     SpF.add, SpF.zero]
   apply SpF.ext' <;> apply V3.ext' <;> simp [cross]
 
+theorem pair_at_point_net_zero_flip (X1 X2 : Pose K) (h1 : X1.R.IsOrtho) (h2 : X2.R.IsOrtho) (loc F : V3 K) :
+    netWrench2 (applyForceToBodyPoint X1 (X1.invApply loc) F, applyForceToBodyPoint X2 (X2.invApply loc) (-F)) X1 X2
+      = SpF.zero := by
+  simp only [netWrench2, applyForceToBodyPoint, applyAt_aboutGround, Pose.mulVec_invApply _ h1, Pose.mulVec_invApply _ h2,
+    SpF.add, SpF.zero]
+  apply SpF.ext' <;> apply V3.ext' <;> simp [cross]
+
 theorem netWrench2_zero (X1 X2 : Pose K) : netWrench2 ((SpF.zero : SpF K), (SpF.zero : SpF K)) X1 X2 = SpF.zero := by
   simp only [netWrench2, SpF.add, SpF.aboutGround, SpF.zero]
   apply SpF.ext' <;> apply V3.ext' <;> simp [cross]
@@ -95,4 +102,82 @@ theorem bushing_net_wrench_zero (X1 X2 : Pose K) (V1 V2 : Vel K) (XF XM : Pose K
   simp only [netWrench2, SpF.add, SpF.aboutGround, SpF.zero]
   apply SpF.ext' <;> apply V3.ext' <;> simp [cross] <;> ring
 
+/-! ### compliant contacts -/
+section contact
+variable [LinearOrder K] [IsStrictOrderedRing K]
+
+/-- **HuntCrossleyForce**, one contact: `∓force` applied at the contact point on both bodies -/
+theorem hc_net_wrench_zero (sqrt : K → K) (vt : K) (h : HCContact K) (h1 : h.X1.R.IsOrtho) (h2 : h.X2.R.IsOrtho) :
+    netWrench2 ((hcContact sqrt vt h).F1, (hcContact sqrt vt h).F2) h.X1 h.X2 = SpF.zero := by
+  simp only [hcContact]
+  split_ifs
+  · exact netWrench2_zero _ _
+  · exact pair_at_point_net_zero _ _ h1 h2 _ _
+  · exact pair_at_point_net_zero _ _ h1 h2 _ _
+
+/-- net wrench about the Ground origin of a list of contributions, body `b` being at `pose b` -/
+def netWrenchList (pose : Nat → Pose K) (l : List (Nat × SpF K)) : SpF K :=
+  l.foldl (fun acc e => SpF.add acc (e.2.aboutGround (pose e.1))) SpF.zero
+
+omit [LinearOrder K] [IsStrictOrderedRing K] in
+theorem netWrenchList_foldl (pose : Nat → Pose K) (l : List (Nat × SpF K)) (acc : SpF K) :
+    l.foldl (fun acc e => SpF.add acc (e.2.aboutGround (pose e.1))) acc = SpF.add acc (netWrenchList pose l) := by
+  induction l generalizing acc with
+  | nil => simp only [netWrenchList, List.foldl_nil, SpF.add_zero']
+  | cons e t ih =>
+    simp only [netWrenchList, List.foldl_cons]
+    rw [ih, ih (SpF.add SpF.zero _), SpF.zero_add', SpF.add_assoc']
+
+/-- **HuntCrossleyForce**, whole contact list (any number of simultaneous contacts, Ground included): the
+contributions of the loop have zero net force and zero net moment -/
+theorem hcLoop_net_wrench_zero (sqrt : K → K) (vt : K) (pose : Nat → Pose K) (cs : List (HCContact K))
+    (hc : ∀ c ∈ cs, c.X1 = pose c.b1 ∧ c.X2 = pose c.b2 ∧ c.X1.R.IsOrtho ∧ c.X2.R.IsOrtho) :
+    netWrenchList pose (hcLoop sqrt vt cs) = SpF.zero := by
+  induction cs with
+  | nil => rfl
+  | cons c t ih =>
+    have hc0 := hc c (List.mem_cons_self ..)
+    have ht := ih (fun x hx => hc x (List.mem_cons_of_mem _ hx))
+    have e : hcLoop sqrt vt (c :: t) = [(c.b1, (hcContact sqrt vt c).F1), (c.b2, (hcContact sqrt vt c).F2)] ++ hcLoop sqrt vt t := by
+      simp [hcLoop]
+    rw [e]
+    simp only [netWrenchList, List.foldl_append, List.foldl_cons, List.foldl_nil]
+    rw [netWrenchList_foldl, ht]
+    have hz := hc_net_wrench_zero sqrt vt c hc0.2.2.1 hc0.2.2.2
+    simp only [netWrench2, hc0.1, hc0.2.1] at hz
+    rw [SpF.zero_add', hz, SpF.zero_add']
+
+/-- **ElasticFoundationForce**, one spring -/
+theorem ef_net_wrench_zero (sqrt : K → K) (vt : K) (P : EFParams K) (area : K) (np sp : V3 K)
+    (X1 X2 : Pose K) (V1 V2 : Vel K) (h1 : X1.R.IsOrtho) (h2 : X2.R.IsOrtho) :
+    netWrench2 ((efSpring sqrt vt P area np sp X1 X2 V1 V2).F1, (efSpring sqrt vt P area np sp X1 X2 V1 V2).F2) X1 X2
+      = SpF.zero := by
+  simp only [efSpring]
+  split_ifs <;> first | exact netWrench2_zero _ _ | exact pair_at_point_net_zero_flip _ _ h1 h2 _ _
+
+/-- **SmoothSphereHalfSpaceForce** -/
+theorem smooth_net_wrench_zero (sqrt tanh : K → K) (pow : K → K → K) (P : SmoothParams K)
+    (Xs Xh : Pose K) (Vs Vh : Vel K) (loc : V3 K) (Xhs : Pose K) (radius : K) (h1 : Xs.R.IsOrtho) (h2 : Xh.R.IsOrtho) :
+    netWrench2 ((smoothSphere sqrt tanh pow P Xs Xh Vs Vh loc Xhs radius).F1,
+                (smoothSphere sqrt tanh pow P Xs Xh Vs Vh loc Xhs radius).F2) Xs Xh = SpF.zero := by
+  simp only [smoothSphere]
+  exact pair_at_point_net_zero _ _ h1 h2 _ _
+
+omit [LinearOrder K] [IsStrictOrderedRing K] in
+/-- **CompliantContactSubsystem** (Hertz, brick, elastic-foundation generators alike): a contact force given at a
+contact point is shifted to the two body origins with opposite signs — zero net wrench for any poses -/
+theorem compliant_net_wrench_zero (cp f : V3 K) (X1 X2 : Pose K) :
+    netWrench2 (compliantApply cp f X1 X2) X1 X2 = SpF.zero := by
+  simp only [netWrench2, compliantApply, SpF.add, SpF.aboutGround, SpF.zero]
+  apply SpF.ext' <;> apply V3.ext' <;> simp [cross] <;> ring
+
+omit [LinearOrder K] [IsStrictOrderedRing K] in
+/-- **ExponentialSpringForce**: the body gets `f_G` at its station, Ground gets `−f_G` at the same point
+(Ground's pose is the identity) -/
+theorem expSpring_net_wrench_zero (X : Pose K) (station f_G : V3 K) :
+    netWrench2 (expSpringApply X station f_G) X ⟨⟨⟨1, 0, 0⟩, ⟨0, 1, 0⟩, ⟨0, 0, 1⟩⟩, V3.zero⟩ = SpF.zero := by
+  simp only [netWrench2, expSpringApply, applyForceToBodyPoint, applyAt, Pose.apply, SpF.add, SpF.aboutGround, SpF.zero]
+  apply SpF.ext' <;> apply V3.ext' <;> simp [cross] <;> ring
+
+end contact
 end ForceLaws
